@@ -267,8 +267,9 @@ def snapshot(db, probes):
         return {'categories': 'EXC:' + type(e).__name__}
     # the reported list is the caller's: changing it must not change the database
     scratch = db.categories()
-    scratch.reverse()
-    scratch.append('zz-scratch')
+    if isinstance(scratch, list):
+        scratch.reverse()
+        scratch.append('zz-scratch')
     snap = {'categories': list(cats), 'frozen': bool(getattr(db, 'frozen', False)),
             'categories_is_a_copy': list(db.categories()) == list(cats),
             'lookup': {}, 'iter': {}, 'iter_all': {}, 'iter_rev': {}, 'specials': {}}
